@@ -329,5 +329,40 @@ pub fn run(ctx: &Ctx) -> Vec<Eng> {
         });
     }
     e3.bounds.push_str(&format!("; plus long runs: every primitive word of length <= 2 repeated to 255..257 and 511..513 events followed by one event of each kind ({} histories x 8 configurations)", long_count(5, 2, &LONG_LENS)));
-    vec![e1, e2, e3]
+    let grid = ratio_grid(if ctx.thorough { 32 } else { 16 }, 6);
+    let mut e4 = Eng::new(
+        "c12-ratio-sweeps",
+        "8-sample histories whose consecutive sampling intervals alternate between d0 and d0*r (d0 in {7 ms, 0.5 s, 37 s}; pattern and its inverse), and histories at a fixed 0.5 s / 0.7 s rhythm whose filter parameter is swept (smoothing = r/(1+r) in (0,1); window = 0.9 s * r), for every ratio of a dense grid (2^(1/16) (thorough 2^(1/32)) steps over 2^-6..2^6 plus 1 +- 2^-k); same oracles as c12-seqs",
+        &format!("{} ratios x (6 interval sweeps x 8 configurations + 2 parameter sweeps)", grid.len()),
+    );
+    {
+        let pat_a: [i32; 8] = [0, 0, 1, 1, 0, 1, 0, 0];
+        let mut cases: Vec<(usize, f64)> = Vec::new();
+        for &r in &grid {
+            for k in 0..6 {
+                cases.push((k, r));
+            }
+        }
+        for cfg in cfgs() {
+            par_cases(&mut e4, &cases, budget, |&(k, r), e| {
+                e.executions += 1;
+                e.states += 1;
+                e.max_depth = e.max_depth.max(8);
+                let d0 = [7_000_000i64, S / 2, 37 * S][k % 3] as f64;
+                let inv = k >= 3;
+                let h: Vec<Ev> = (0..8).map(|i| Ev::P((d0 * if (pat_a[i] == 1) != inv { r } else { 1.0 }).round().max(1.0) as i64, cyc[i % 3])).collect();
+                e.sample(|| format!("{:?} ratio {:.5} [{}]", cfg, r, show(&h)));
+                e.transitions += check_history(cfg, &h, e);
+            });
+        }
+        par_cases(&mut e4, &grid, budget, |&r, e| {
+            let h: Vec<Ev> = (0..8).map(|i| Ev::P([S / 2, 700_000_000][i % 2], cyc[i % 3])).collect();
+            for cfg in [Cfg::Ewma((r / (1.0 + r)) as f32), Cfg::Ma(((0.9e9 * r).round() as i64).max(1))] {
+                e.executions += 1;
+                e.states += 1;
+                e.transitions += check_history(cfg, &h, e);
+            }
+        });
+    }
+    vec![e1, e2, e3, e4]
 }
